@@ -51,40 +51,48 @@ EACH change:
      violation of the property as stated, not of something stronger than the property says.
   4. the two changes should be in different mechanisms (different functions/templates/files) and have different
      kinds of trigger.
-  5. Six earlier rounds of this exercise already produced about 240 changes. Ideas that are TAKEN (do not repeat
+  5. Seven earlier rounds of this exercise already produced about 280 changes. Ideas that are TAKEN (do not repeat
      them or close variants): anything in iohelp's EnsureLen / PreallocLen / ReadBytes / Drain / error latches /
-     ErrorReader.Read / ErrorWriter retry / ReadByte (0,nil) / UTF-8 sanitising / shared-memory strings / date
-     conversion / ReadFloat64Bytes bounds probe / WriteBoolBytes; Size() shortcuts; message fields or union members
-     numbered by position; break-vs-continue at deprecated fields; minWireSizes (fix-point, uint8 overflow, keyed by
-     value only, import aliases); the counted-struct analysis and its unchecked variant; enum : byte alias; NaN
-     canonicalisation; template key typos; pending-state leaks in the parser ([deprecated], [opcode], [flags], blank
-     lines, skipEndOfLineComments); [flags] precedence / grouping / shifts; negative hex literals; % in printf
-     formats; long comments, ReadSlice, CRLF, tabs, non-ASCII identifiers, block-comment terminators, partial tokens on
-     read errors, LimitReader wrappers (ReadFile, bebopfmt); import de-duplication keys, relative paths, case folding,
-     early no-go_package errors, skipping files that declare nothing; Go import-block computation; importgraph edges;
-     hard links, long lines, shared buffers, temp-file fallbacks, exit-status counts, dropped bufio Flush errors in the
-     tools; sync.Once caches; aliasing through *FieldType / spare capacity / Tags slices; Validate's recursion
-     fix-point (delta, DFS with shared walked set) and integer bit-size table; guid literal checks; uint8 loops that
-     stop before 255; two-digit indices sorted as text; ln1 declared-before-assigned in nested maps; unsigned enum
-     values printed through int64; const block emission keyed on the first const; the formatter's trailing-comment
-     glue, line-end trimming, union-branch re-indentation, stripped parentheses.
-     Find something genuinely different. Directions nobody has taken yet: the 14 map KEY templates one by one (guid,
-     date, bool, float keys - encode order, duplicate keys on the wire, key/value size accounting); date and guid
-     value templates (byte order of the guid's first three groups, ticks epoch, sub-microsecond rounding, negative
-     dates); float32 vs float64 template mix-ups; readonly structs (getters returning internal slices/maps, New<T>
-     argument order); pointer-receiver variants (AlwaysUsePointerReceivers) differing from value receivers; opcode
-     constants for 4-character strings with high bytes; message decoders when the SAME index occurs twice on the
-     wire, or when the length prefix is shorter/longer than the body; union decoders when the length prefix
-     disagrees with the branch's real size; Make<T>/MustMake<T> wrappers and GetOpCode; PrivateDefinitions naming
-     for nested/imported/union-branch names; a File built in code rather than by ReadFile (nil vs empty slices, empty
-     FileName, fields out of index order); Generate called with PackageName vs go_package vs both; Validate's
-     duplicate-name rules across enums/structs/unions/branches/consts and across imports; reserved Go words and
-     predeclared identifiers as field / type / enum-member / package names; const forms (exponent floats, leading
-     +, underscores, very long literals, -0, bool case); the formatter on attributes followed by comments, on
-     enums with explicit base types and doc comments, on empty definitions, on files ending without newline or
-     starting with a BOM; the tools' flag handling (-w with several paths, a path given twice, a directory containing
-     a sub-directory or a non-.bop file or a symlink loop, stdout mode for several files, relative -o paths creating
-     directories).
+     ErrorReader.Read / ErrorWriter retry / ReadByte-ReadBool-ReadUint8 fast paths through io.ByteReader or
+     io.ByteWriter / UTF-8 sanitising or interning of strings / uint32 overflow in string bounds / shared-memory
+     strings / date conversion / bounds probes / WriteBoolBytes / ReadString against a LimitedReader; Size()
+     shortcuts; fields or union members numbered by position; break-vs-continue at deprecated fields; minWireSizes
+     in any form; count checks for narrow-keyed maps, zero-size elements, enum arrays; constant strides for struct
+     arrays; the counted-struct analysis; enum : byte alias; NaN canonicalisation and NaN map keys; template key
+     typos; local-vs-imported template lookup; missing templates for imported unions / messages; fixed five-byte
+     frames for empty messages; byte[] message fields read without ReadBytes; pending-state leaks in the parser;
+     [flags] precedence / grouping / shifts / position memo; hex literals (negative, ending in e); index range
+     checks (0, 256); opcode strings (escapes, bytes >= 0x80, bytes.Trim); const range off-by-one, string consts
+     re-quoted; keyword-named enum options; % in printf formats; long comments, ReadSlice, CRLF, tabs, BOM,
+     non-ASCII identifiers, block-comment terminators, partial tokens on read errors, LimitReader wrappers; import
+     de-duplication keys, relative paths, case folding, early no-go_package errors, skipped index files, descriptors
+     held by defer, parsed-import caches, importgraph DFS (edges, early returns, stack handling); Go import-block
+     computation; /vN package names; hard links, long lines, shared buffers, temp-file fallbacks, exit-status
+     counts, dropped Flush / write errors, lost look-ahead tokens in the tools and the formatter; sync.Once and
+     other package-level caches (indent tables); aliasing through *FieldType / spare capacity / Tags; Validate's
+     recursion fix-point, branch messages in it, integer bit-size table, deprecated fields skipped; guid literal
+     checks; uint8 loops that stop before 255; two-digit indices sorted as text; ln1 declared-before-assigned;
+     unsigned enum values through int64; const block emission; the formatter's trailing-comment glue, line-end
+     trimming, union-branch re-indentation, stripped parentheses, zero-padded indices, blank-line state.
+     Find something genuinely different. Directions nobody has taken yet: date values (ticks epoch, rounding of
+     sub-100ns parts, negative / pre-1970 / far-future dates, time zones) in each of the four date templates; guid
+     byte order in map KEYS and arrays; bool / guid / date / float keys in the map encoders (Size accounting per
+     key type); readonly structs (getters returning internal slices or maps that alias, New<T> argument order,
+     unexported field names under PrivateDefinitions); pointer-receiver variants (AlwaysUsePointerReceivers)
+     differing from value receivers in ONE method; GetOpCode and the opcode constant for unions and messages;
+     message decoders when the same index occurs twice, when the terminator is missing but the length is right,
+     when the length prefix covers less / more than the fields; union decoders when the length prefix disagrees with
+     the branch; Make<T> / MustMake<T> / Make<T>FromBytes wrappers and their error paths; a File built in code
+     rather than by ReadFile (nil vs empty slices, empty FileName, Fields map with gaps); Generate with PackageName
+     and go_package both set or both missing; Validate's duplicate-name rules between enums / structs / unions /
+     branch names / consts, also across imports and under PrivateDefinitions; Go reserved words and predeclared
+     identifiers (type, func, len, error, string) as field / record / enum-member names; const forms (exponent
+     floats, leading +, -0, very long literals, bool case, guid case); comments in odd places (between a type and a
+     field name, inside map[...] brackets, after the last brace without newline); the tools' argument handling
+     (several paths, a path twice, directories with sub-directories, non-.bop files, unreadable files, output path
+     equal to input path, -o into a missing directory, stdin/stdout modes); struct fields named like generated
+     methods (Size, MarshalBebop); enum members named like generated constants; two records whose Go names
+     collide only after capitalisation.
 Read the code first; look for shortcuts, special cases, counters, cursors, shared buffers, thresholds, lookup tables
 keyed by type name, pending-state flags, and places where two code paths must agree.
 
